@@ -142,6 +142,17 @@ theorem sel_weights_uniform (cor res : PSet π ℝ) (u1 : ℝ) (hN : 0 < cor.log
   · rw [h1]; exact sum_exp_uniform _ hN
   · rw [h1]; exact logSumExp_uniform _ hN
 
+/-- Object level: in a sequence of calls on one resampling object, call `i` behaves exactly as a single
+    call with its own set and its own draw — all the per-call theorems above apply to every call,
+    whatever the particle counts, layouts and weights of the earlier calls were. -/
+theorem sel_calls_independent (calls : List (PSet π ℝ × PSet π ℝ)) (us : List ℝ) (i : Nat)
+    (hi : i < calls.length) (hu : i < us.length) :
+    (resampleSeq calls us).length = min calls.length us.length ∧
+    (resampleSeq calls us)[i]? = some (resample calls[i].1 calls[i].2 us[i]) := by
+  constructor
+  · simp [resampleSeq]
+  · simp [resampleSeq, List.getElem?_zipWith, List.getElem?_eq_getElem hi, List.getElem?_eq_getElem hu]
+
 end sets
 
 section neffs
